@@ -10,9 +10,9 @@ def run(tier, seed):
     ck.encode(F.wrap_func, F.wrap_ufunc, F.wrap_ranges_func, F.get_error, F.raise_errors, F.convert_nan, F.get_functions)
     names = sorted(k for k in F.get_functions() if isinstance(k, str))
     ck.assume('function name, argument count and argument values are boolean selectors; every explored path calls the public registered callable natively',
-              'admissible argument counts = the required positional parameters of the implementation (plus one and two more for variadic functions), at most 5',
+              'admissible argument counts = the required positional parameters of the implementation, plus one and two more for variadic functions and for the optional arguments Excel documents (table OPTIONAL in harness/c11_total.py), at most 5',
               'error propagation is demanded of every function except the documented error-handling / inspection / selection functions listed in harness/c11_total.py:exempt()')
-    ck.out_of_scope('optional arguments beyond the required ones', 'argument tuples outside the pools (11 values for <= 2 arguments, 8 for 3, 4 for 4-5)', 'functions evaluated through formulas / ranges of a workbook')
+    ck.out_of_scope('optional arguments beyond the second', 'argument tuples outside the pools (11 values for <= 2 arguments, 8 for 3, 4 for 4-5)', 'functions evaluated through formulas / ranges of a workbook')
     quick = tier == 'quick'
     src = open(os.path.join(ROOT, 'harness', 'c11_total.py')).read()
     groups = [names[i:i + 8] for i in range(0, len(names), 8)]
